@@ -726,7 +726,8 @@ impl<'a> Gen<'a> {
         } else {
             let mut e2 = env.clone();
             e2.global = false;
-            let s = self.simple_stmt(&mut e2);
+            // (the empty statement is a body too: `if (c) ; else x q;`)
+            let s = if self.rng.below(8) == 0 { MStmt::Empty } else { self.simple_stmt(&mut e2) };
             env.counter = e2.counter;
             MBody::Single(Box::new(s))
         }
